@@ -174,6 +174,20 @@ def check(ctx):
         ctx.violation("dispatch-unknown-registered:" + ",".join(extra), "%f " + ",".join(extra) + " ; then call it",
                       "an unknown name stays unknown (UnknownFunctionError)", "the name is now a key of FUNCTIONS with no signatures",
                       "execute_interpreter_command('%f frobnicate'); dispatch('frobnicate', [1])")
+    # unknown names called as TEXT (the evaluator looks at the call before dispatch does): still unknown, and nothing gets registered
+    keys_before2 = list(F.FUNCTIONS.keys())
+    for text in ("nosuchfn(3!)", "lg(10!)", "Sin(3!)", "foo(1, C(4,2))", "foo(3!/2!)", "bar(x: 3!)", "baz({3!})", "x = 4!; qux(x)", "nosuchfn(1 m)",
+                 "nosuchfn([1,2])", "nosuchfn(#2020-01-01#)", "nosuchfn()", "nosuchfn(1, k: 2)", "nosuchfn(Binomial(3, 1/2))"):
+        k_, v_ = R.value(text)
+        ctx.count("unknown-text:" + text, bucket="unknown-name-as-text")
+        if k_ != "err" or v_ != "unknownfn":
+            ctx.violation("dispatch-unknown-text:" + text, text, "err unknownfn", "%s %s" % (k_, v_), "execute(%r)" % text)
+    if list(F.FUNCTIONS.keys()) != keys_before2:
+        extra = [k for k in F.FUNCTIONS.keys() if k not in keys_before2]
+        ctx.violation("dispatch-unknown-registered:" + ",".join(extra), "calls of unknown names: " + ",".join(extra), "an unknown name stays unknown",
+                      "the names are now keys of FUNCTIONS", "execute('lg(10!)') then execute('lg(10)')")
+        for k in extra:
+            F.FUNCTIONS.pop(k, None)
     for nm in ("nosuchfn", "Sin", "sum2", "frobnicate"):
         try:
             F.dispatch(nm, [1])
